@@ -72,6 +72,41 @@ def pulsarbat_code_objects(subpaths=None):
     return seen
 
 
+def with_exit_offsets(code):
+    """Offsets of the instruction that starts the normal-exit sequence of a `with`
+    statement (LOAD_CONST None x3, CALL 2). That sequence carries the line number of
+    the `with` line but lies OUTSIDE the range protected by the with's exception
+    handler: an exception delivered there skips __exit__ (CPython behaviour, also for a
+    real signal), which would leak the lock or file handle. Such events are never
+    delivered: no crash point, no pre-emption, no kill."""
+    import dis
+    ins = list(dis.get_instructions(code))
+    out = set()
+
+    def is_exit_seq(j):
+        a, b, c, d = ins[j:j + 4] if j + 4 <= len(ins) else (None,) * 4
+        return d is not None and a.opname == b.opname == c.opname == "LOAD_CONST" \
+            and a.argval is None and b.argval is None and c.argval is None \
+            and d.opname == "CALL" and d.arg == 2
+
+    for i, x in enumerate(ins):
+        # (execution may ENTER these sequences by a jump, so `starts_line` is irrelevant)
+        # the exception path of a `with` (PUSH_EXC_INFO, WITH_EXCEPT_START) also carries
+        # the `with` line and is equally unprotected until __exit__ has been called
+        if x.opname == "PUSH_EXC_INFO" and i + 1 < len(ins) and ins[i + 1].opname == "WITH_EXCEPT_START":
+            out.add(x.offset)
+            out.add(ins[i + 1].offset)
+            continue
+        if is_exit_seq(i):
+            out.add(x.offset)
+            # the sequence may begin with SWAP/COPY instructions that save a return value
+            k = i - 1
+            while k >= 0 and ins[k].opname in ("SWAP", "COPY") and i - k <= 2:
+                out.add(ins[k].offset)
+                k -= 1
+    return frozenset(out)
+
+
 class LineMonitor:
     """One sys.monitoring tool with LINE events on a fixed set of code objects.
 
@@ -100,6 +135,7 @@ class LineMonitor:
         except ValueError:
             pass
         self.codes = pulsarbat_code_objects(self.subpaths)
+        self.skip = {c: with_exit_offsets(c) for c in self.codes}
         ev = _mon.events
         _mon.register_callback(self.tool_id, ev.LINE, self._line)
         _mon.register_callback(self.tool_id, ev.PY_START, self._enter)
@@ -138,6 +174,9 @@ class LineMonitor:
         if top[1] == line:
             return
         top[1] = line
+        sk = self.skip.get(code)
+        if sk and sys._getframe(1).f_lasti in sk:
+            return          # normal-exit sequence of a `with`: not interruptible (see above)
         cb = self.callback
         if cb is not None:
             return cb(code, line)
